@@ -55,6 +55,15 @@ C01_LEAVES = [l for l in LEAVES if l not in ('bytes', 'bytearray')]
 F3 = 'F3-neg-timedelta'
 
 
+def eff_xf(c):
+    """the dump key transform in force: YAMLWizard defaults to LISP, TOMLWizard to NONE, everything else to CAMEL"""
+    xf = c['cfg'].get('xf')
+    if xf is not None:
+        return xf
+    bases = c['root'].get('bases', [])
+    return 'LISP' if 'YAMLWizard' in bases else 'NONE' if 'TOMLWizard' in bases else 'CAMEL'
+
+
 def in_f3(v):
     """negative timedelta with a non-zero time-of-day part"""
     if isinstance(v, dict):
@@ -159,7 +168,7 @@ def make_cases(ctx):
             c['cfg']['auto_tags'] = True
         # history axis: members dumped alone before the owner's first dump (default key spelling only:
         # a member dumped alone caches its own key spelling - open finding F10)
-        if has_nested_data(c['root']) and c['cfg'].get('xf') in (None, 'CAMEL') and rh.random() < 0.5:
+        if has_nested_data(c['root']) and eff_xf(c) == 'CAMEL' and rh.random() < 0.5:
             c['pre_dump'] = True
         c['canonical_names'] = all_canonical(c['root'])
     return cases
@@ -207,7 +216,7 @@ def run(ctx):
         if 'coq_v' not in res or 'tbl' not in res:
             continue
         lets = ''.join('let %s := %s in ' % (n, t) for n, t in res['lets'])
-        dc = '(mkCfg %s DtIso (S "__tag__"))' % XF[c['cfg'].get('xf')]
+        dc = '(mkCfg %s DtIso (S "__tag__"))' % XF[eff_xf(c)]
         lc = '(mkL (S "__tag__"))'
         cur_pre.append('Definition ty_%d : ty := %s%s.' % (i, lets, res['coq_t']))
         cur_pre.append('Definition val_%d : pv := %s%s.' % (i, lets, res['coq_v']))
@@ -241,7 +250,7 @@ def run(ctx):
             type_stats(f['ty'], h)
             for k in h: ctx.hist('type_constructor', k)
             ctx.hist('field_depth', type_depth(f['ty']))
-        ctx.hist('transform', c['cfg'].get('xf'))
+        ctx.hist('transform', '%s(%s)' % (c['cfg'].get('xf'), eff_xf(c)))
         ctx.hist('root_kind', '+'.join(c['root'].get('bases', [])) or 'plain')
         for fmt, r in (res.get('res') or {}).items():
             ctx.hist('format', fmt)
@@ -255,7 +264,7 @@ def run(ctx):
         if bad:
             if f3 and ctx.is_open_region(F3) and res.get('leaf_bad') == ['timedelta']:
                 ctx.hist('known_region', F3)
-            elif kflag == '0' and not c.get('canonical_names') and c['cfg'].get('xf') != 'NONE':
+            elif kflag == '0' and not c.get('canonical_names') and eff_xf(c) != 'NONE':
                 # non-canonical field names whose dumped spelling does not resolve back IN THE MODEL (keys_ok = false):
                 # outside the property's quantifier (canonical names, or NONE for any identifier)
                 ctx.hist('outside_domain', 'keys_ok=false, non-canonical names')
@@ -290,7 +299,7 @@ def run(ctx):
         k = model.get((i, 'keys'))
         if k is not None:
             ctx.hist('keys_ok', '%s/%s' % (k, 'canonical' if c.get('canonical_names') else 'extended'))
-            if k != '1' and (c.get('canonical_names') or c['cfg'].get('xf') == 'NONE'):
+            if k != '1' and (c.get('canonical_names') or eff_xf(c) == 'NONE'):
                 ctx.broken_tie('keys_ok is false for a generated class (canonical names / NONE identifiers)', {'case': strip(c), 'model': k})
         if len(ctx.samples) < 6 and i % 11 == 0:
             ctx.sample({'fields': [(f['name'], c['labels'].get(f['name'], f['ty']['t'])) for f in fields][:4], 'cfg': c['cfg'], 'bases': c['root'].get('bases'),
